@@ -22,7 +22,8 @@ RULE = ("complete product emission site x name class x dialect (30 name classes:
         "three quote characters singly and doubled, backslash, comment openers, placeholders, Unicode) plus names of 1-3 characters and of 31/64/200 characters, plus seeded random names; sites include the Tables()/Query.Tables() "
         "factories, Schema/Database attribute chains, item access, Index/Column objects and every DDL builder; each statement is also "
         "rendered with str() (no context) and must come out the same; "
-        "non-trivial = the name is not a plain lower-case identifier; distinct = (site, dialect, name)")
+        "non-trivial = the name is not a plain lower-case identifier; distinct = (site, dialect, name)"
+        " also: absolute identifier sequences for DDL twins / USING lists / schema targets of every statement kind, table shortcuts, attribute access and string columns, names a convenience layer might reinterpret, a foreign context through get_parameterized_sql. (DESIGN.md 6a)")
 ASSUMPTIONS = [
     "identifier lexing per dialect: \"..\" with \"\" escape (SQLite, PostgreSQL, SQL Server with QUOTED_IDENTIFIER ON, Oracle), "
     "`..` with `` escape (MySQL, where \"..\" is a string)",
